@@ -67,6 +67,7 @@ type State struct {
 	ifaceRefined map[int]IfaceV
 	ifaceDenied  map[int]bool
 	quantDepth int
+	caseConcl []*Term // conclusions of bycases(...) assertions evaluated last
 	wframe   *writeFrame // write-frame of the function under verification (nil: none declared)
 	persist  []*Term // facts that survive a cut: entry assumptions and earlier cut assertions
 	steps    int
@@ -203,6 +204,7 @@ type Engine struct {
 	ctWriteCache  map[*ssa.Function]map[int]bool
 	initMem       map[*Region]Cell // memory allocated by package initialisers
 	aliasConds    []*Term
+	pendingForks  []*State
 	ctWriteBusy   map[*ssa.Function]bool
 	groundDone    bool
 	groundFacts   []*Term
